@@ -232,15 +232,9 @@ func c14(c *ctx) {
 			}
 			return ""
 		},
-		atom: func(v ssa.Value) (string, bool) {
-			if b, ok := v.(*ssa.BinOp); ok && (b.Op == token.NEQ || b.Op == token.EQL) && c.p.path(b.X) == "len($1.DoubleSigners)" && c.p.path(b.Y) == "0" {
-				return "listEmpty", b.Op == token.NEQ
-			}
-			if b, ok := v.(*ssa.BinOp); ok && (b.Op == token.NEQ || b.Op == token.EQL) && c.p.path(b.X) == "$1" && c.p.path(b.Y) == "nil" {
-				return "recipientsNil", b.Op == token.NEQ
-			}
-			return "", false
-		},
+		atom: cmpAtoms(c.p,
+			cmpSpec{"listEmpty", token.EQL, pathIs("len($1.DoubleSigners)"), pathIs("0")},
+			cmpSpec{"recipientsNil", token.EQL, pathIs("$1"), pathIs("nil")}),
 		target: tgtOkReturn("ok-return"),
 		reqs: func(string) []string {
 			return []string{"@recipientsNil=T|@listEmpty=T|ProcessDSE.ok", "@recipientsNil=T|@listEmpty=T|!seen:ContainsFunc|ContainsFunc#0=T"}
